@@ -234,6 +234,9 @@ func awaitTargetAck(near *vkit.BufConn, tunnelID string) *failure {
 
 func newMiniRig(c Case) (*rig, *failure) {
 	r := &rig{name: "session", endedWhat: "the SessionManager still knows the tunnel (bridge map / routing record)"}
+	if c.SameClient {
+		r.name = "session/same-client-mapping"
+	}
 	r.aN, r.bN, r.aS, r.bS = newConns(c)
 	// the handshake must not be disturbed by the case's short reads on the client side
 	capA, capB := r.aN.ReadCap.Load(), r.bN.ReadCap.Load()
